@@ -145,7 +145,7 @@ class Config(object):
             self.ignore_attribute,
             None,
         )
-        new_config.classes = self.classes.copy()
+        new_config.classes = LocalClasses(self.classes)
         new_config.serialize_handlers = self.serialize_handlers.copy()
         return new_config
 
